@@ -23,7 +23,13 @@ T = TypeVar('T')
 
 
 class ThreadLocal(Generic[T]):
-    """This type offers the ability to store a value based on the thread that accessed the value."""
+    """
+    This type offers the ability to store a value based on the thread that accessed the value.
+
+    The thread is identified with threading.get_ident() and not with threading.current_thread(): we are called from
+    trace events of threads that are just finishing, where current_thread() registers a new dummy thread object that
+    then stays in threading.enumerate() for good.
+    """
 
     __store = {}
 
@@ -41,11 +47,11 @@ class ThreadLocal(Generic[T]):
 
         :return: the stored value, or the value from the default_provider
         """
-        current_thread = threading.current_thread()
-        get = self.__store.get(current_thread.ident, None)
+        ident = threading.get_ident()
+        get = self.__store.get(ident, None)
         if get is None:
             get = self.__default_provider()
-            self.__store[current_thread.ident] = get
+            self.__store[ident] = get
         return get
 
     def set(self, val: T):
@@ -54,14 +60,13 @@ class ThreadLocal(Generic[T]):
 
         :param val: the value to store
         """
-        current_thread = threading.current_thread()
-        self.__store[current_thread.ident] = val
+        self.__store[threading.get_ident()] = val
 
     def clear(self):
         """Remove the value for this thread."""
-        current_thread = threading.current_thread()
-        if current_thread.ident in self.__store:
-            del self.__store[current_thread.ident]
+        ident = threading.get_ident()
+        if ident in self.__store:
+            del self.__store[ident]
 
     @property
     def is_set(self):
@@ -70,8 +75,7 @@ class ThreadLocal(Generic[T]):
 
         :return: True if there is a value for this thread
         """
-        current_thread = threading.current_thread()
-        return current_thread.ident in self.__store
+        return threading.get_ident() in self.__store
 
     @property
     def value(self):
